@@ -273,7 +273,7 @@ func rewriteFile(path string, mapFuncs []string, nochan bool) (bool, []byte, err
 		case *ast.GoStmt:
 			r.fail(s, "go statement outside a statement list")
 		case *ast.SelectStmt:
-			if !r.nochan {
+			if !r.nochan && !r.skip[s] {
 				r.fail(s, "select outside a statement list")
 			}
 		case *ast.SendStmt:
@@ -477,14 +477,7 @@ func (r *rw) rewriteList(list []ast.Stmt) []ast.Stmt {
 		if ls, ok := s.(*ast.LabeledStmt); ok {
 			switch ls.Stmt.(type) {
 			case *ast.SelectStmt, *ast.SendStmt, *ast.GoStmt:
-				if _, isSel := ls.Stmt.(*ast.SelectStmt); isSel && !r.nochan {
-					// label on a select: keep the label on the generated switch
-					repl := r.rewriteSelect(ls.Stmt.(*ast.SelectStmt))
-					ls.Stmt = repl
-					out = append(out, ls)
-					continue
-				}
-				r.fail(s, "labelled go/send statement")
+				r.fail(s, "labelled select/go/send statement")
 			}
 			out = append(out, s)
 			continue
@@ -558,9 +551,51 @@ func (r *rw) rewriteGo(g *ast.GoStmt) []ast.Stmt {
 	return []ast.Stmt{&ast.BlockStmt{List: append(pre, st)}}
 }
 
+// cloneStmt deep-copies a statement by printing and re-parsing it.
+func (r *rw) cloneStmt(st ast.Stmt) ast.Stmt {
+	var buf bytes.Buffer
+	buf.WriteString("package p\nfunc _() {\n")
+	if err := format.Node(&buf, r.fset, st); err != nil {
+		r.fail(st, "cannot print statement for cloning: %v", err)
+		return st
+	}
+	buf.WriteString("\n}\n")
+	f, err := parser.ParseFile(token.NewFileSet(), "clone.go", buf.Bytes(), 0)
+	if err != nil {
+		r.fail(st, "cannot re-parse cloned statement: %v", err)
+		return st
+	}
+	fd := f.Decls[0].(*ast.FuncDecl)
+	c := fd.Body.List[0]
+	// drop positions and resolution info of the clone
+	ast.Inspect(c, func(n ast.Node) bool {
+		if id, ok := n.(*ast.Ident); ok {
+			id.Obj = nil
+			id.NamePos = token.NoPos
+		}
+		return true
+	})
+	return c
+}
+
 func (r *rw) rewriteSelect(sel *ast.SelectStmt) ast.Stmt {
 	r.needVrt = true
 	r.changed = true
+	// outside an exploration the original native select must run: keep a pristine copy of it
+	native := r.cloneStmt(sel).(*ast.SelectStmt)
+	r.skip[native] = true
+	for _, c := range native.Body.List {
+		cc := c.(*ast.CommClause)
+		if cc.Comm != nil {
+			r.skip[cc.Comm] = true
+			if _, _, u := commOp(cc.Comm); u != nil {
+				if r.okRecv == nil {
+					r.okRecv = map[*ast.UnaryExpr]bool{}
+				}
+				r.okRecv[u] = true
+			}
+		}
+	}
 	tk := r.newTk()
 	r.tk++
 	idx := ast.NewIdent(fmt.Sprintf("vrtI%d", r.tk))
@@ -590,11 +625,16 @@ func (r *rw) rewriteSelect(sel *ast.SelectStmt) ast.Stmt {
 		body = append(body, cc.Body...)
 		clauses = append(clauses, &ast.CaseClause{List: []ast.Expr{&ast.BasicLit{Kind: token.INT, Value: strconv.Itoa(i)}}, Body: body})
 	}
-	return &ast.SwitchStmt{
+	// default: unreachable (BeforeSelect always returns a case inside an exploration); it keeps a
+	// select whose every case returns a terminating statement
+	clauses = append(clauses, &ast.CaseClause{List: nil, Body: []ast.Stmt{
+		&ast.ExprStmt{X: &ast.CallExpr{Fun: ast.NewIdent("panic"), Args: []ast.Expr{&ast.BasicLit{Kind: token.STRING, Value: `"vrt: BeforeSelect returned no case"`}}}}}})
+	sw := &ast.SwitchStmt{
 		Init: &ast.AssignStmt{Lhs: []ast.Expr{tk, idx}, Tok: token.DEFINE, Rhs: []ast.Expr{vrtCall("BeforeSelect", cases...)}},
 		Tag:  idx,
 		Body: &ast.BlockStmt{List: clauses},
 	}
+	return &ast.IfStmt{Cond: vrtCall("Active"), Body: &ast.BlockStmt{List: []ast.Stmt{sw}}, Else: &ast.BlockStmt{List: []ast.Stmt{native}}}
 }
 
 // rewriteMapRanges turns `for k, v := range m {body}` into a loop over an
